@@ -660,6 +660,15 @@ def p_reserialize(b):
         return "embedded transaction is not in non-witness format"
     if any(i.script_sig.commands for i in p.tx_obj.tx_ins):
         return "embedded transaction has a non-empty scriptSig"
+    # the base64 text form (what the roles actually exchange) = RFC 4648 base64 of the same bytes, and loads back
+    t64 = p.serialize_base64()
+    if t64 != base64.b64encode(s1).decode("ascii"):
+        return "serialize_base64() is not the base64 text of serialize()"
+    try:
+        if PSBT.parse_base64(t64).serialize() != s1:
+            return "parse_base64(serialize_base64(p)) re-serialises differently"
+    except Exception as e:  # noqa
+        return f"parse_base64 rejects serialize_base64(p): {type(e).__name__}: {e}"
     return None
 
 
